@@ -3,18 +3,23 @@ import json, os, sys
 V = os.path.dirname(os.path.dirname(os.path.abspath(__file__)))
 mat = {}
 for f in sys.argv[1:]:
-    if os.path.exists(f):
+    if f != "--fresh" and os.path.exists(f):
         for mid, row in json.load(open(f)).items():
             mat.setdefault(mid, {}).update(row)
 out = {}
+old_path = os.path.join(V, "seeded", "KILL_MATRIX.json")
+if "--fresh" not in sys.argv and os.path.exists(old_path):
+    out = json.load(open(old_path))      # entries of earlier rounds / runs are kept
 for mid in sorted(mat):
     meta = json.load(open(os.path.join(V, "seeded", mid, "meta.json")))
     row = {}
     for p, r in sorted(mat[mid].items()):
         row[p] = {"exit": r["exit"], "detected": r["exit"] == 1,
                   "first_line": r["first"][:220], "wall_s": r["wall_s"]}
-    out[mid] = {"breaks_property": meta["breaks_property"], "checks": row,
-                "detected_by": sorted(p for p, r in row.items() if r["detected"])}
+    prev = out.get(mid, {}).get("checks", {})
+    prev.update(row)
+    out[mid] = {"breaks_property": meta["breaks_property"], "checks": prev,
+                "detected_by": sorted(p for p, r in prev.items() if r["detected"])}
 json.dump(out, open(os.path.join(V, "seeded", "KILL_MATRIX.json"), "w"), indent=1)
 for mid, r in out.items():
     print(mid, r["breaks_property"], "->", r["detected_by"] or "NOT DETECTED",
